@@ -3,7 +3,6 @@ package rules
 import (
 	"fmt"
 	"go/ast"
-	"os"
 	"path/filepath"
 	"strings"
 
@@ -65,7 +64,7 @@ func (c *Ctx) scriptOf(rule, pkg, scriptVar string) (*luax.Script, string) {
 		return nil, ""
 	}
 	path := filepath.Join(filepath.Dir(pk.GoFiles[0]), file)
-	b, err := os.ReadFile(path)
+	b, err := c.P.ReadFile(path)
 	if err != nil {
 		c.R.Undecided(rule, pkg+"."+scriptVar, "anchor resolves", err.Error())
 		return nil, ""
